@@ -13,6 +13,9 @@ after the `fix:` commit that remaps a data file after every write that changed i
   remap decision `P.remap old_size new_size` — a parameter: `remapFixed` is the code as it is now,
   `remapPinned` the rule of the pinned tree (> 64 MiB growth or more than doubled; the `f64` ratio
   is exact below 2^52 bytes and is written on naturals).
+* `create_archive` (reached by a write when archive 0 is not open) is `createArchive`: after the
+  `fix:` commit 8767d44 an existing `data.000` is opened as it is (`keepOnCreate = true`); the
+  pinned `File::create` truncated it (`keepOnCreate = false`, kept for the counter-witness).
 * MD5 (`EncodingKey::from_data`), zlib/LZ4 (`Blte.Codec`) are parameters; the local header is a
   parameter `hdr` in the theorems (only its length matters) and `localHeader` in the driver.
 -/
@@ -52,6 +55,10 @@ structure Params where
   /-- remap decision of `write_to_archive`: size at the last (re)map → size now → remap? -/
   remap : Nat → Nat → Bool
   cd : Codec
+  /-- `create_archive` on a `data.000` that already exists (a manager that has not run
+  `open_all`): `true` = the code as it is now (`OpenOptions … .create(true).truncate(false)`, the
+  file is opened as it is), `false` = the pinned tree (`File::create`, which truncates it). -/
+  keepOnCreate : Bool
 
 /-- the rule as the code has it now: remap whenever the size changed. -/
 def remapFixed (old new : Nat) : Bool := decide (new ≠ old)
@@ -109,6 +116,13 @@ def blteOf (cd : Codec) (data : Bytes) (mode : Mode) : Except Err Bytes :=
 def writeAt (file : Bytes) (off : Nat) (data : Bytes) : Bytes :=
   file.take off ++ List.replicate (off - file.length) 0 ++ data ++ file.drop (off + data.length)
 
+/-- `create_archive` + `open_archive` for archive 0 when the manager has no archive 0 open:
+the file is created empty if it does not exist; if it exists it is kept (`keep`, the code now) or
+truncated (pinned `File::create`); the mapping and the write position are its length. -/
+def createArchive (keep : Bool) (s : State) : State :=
+  let f : Bytes := if keep then s.disk.getD [] else []
+  ⟨some f, some ⟨f.length, f.length⟩⟩
+
 /-- `write_content_with_mode`; returns `(archive_id, offset, total_size, encoding_key)`. -/
 def write (P : Params) (s : State) (data : Bytes) (mode : Mode) :
     State × Except Err (Nat × Nat × Nat × Bytes) :=
@@ -126,10 +140,11 @@ def write (P : Params) (s : State) (data : Bytes) (mode : Mode) :
       if cur ≥ maxArchive - writeReserve then (s, .error .rollover)
       else if cur + total > maxArchive then (s, .error .tooLarge)
       else
-        -- `create_archive`: `File::create` (truncates), then `open_archive`
+        -- `create_archive`: create-or-open the file, then `open_archive` (maps it, write
+        -- position := its length)
         let s1 : State := match s.opn with
           | some _ => s
-          | none => ⟨some [], some ⟨0, 0⟩⟩
+          | none => createArchive P.keepOnCreate s
         match s1.opn, s1.disk with
         | some o, some file =>
           let offset := o.pos
@@ -164,6 +179,30 @@ def readContent (P : Params) (s : State) (id off size : Nat) : Except Err Bytes 
       decompressBlte P.cd (data.drop headerSize)
     else if data.length ≥ 4 ∧ data.take 4 = Blte.magic then decompressBlte P.cd data
     else .ok data
+
+/-- a new `ArchiveManager` on the same directory WITHOUT `open_all()` (what `Installation::open`
+and `DynamicContainer::new` build): nothing is open, the files are as they were. -/
+def dropOpen (s : State) : State := ⟨s.disk, none⟩
+
+/-- the arithmetic of `write_content_with_mode` for a BLTE image of `blteLen` bytes on an open
+archive 0 whose write position is `pos` — the only places where a size or offset limit enters:
+`u32::try_from` of the image and total size, `select_archive_for_write` (archive 0 is used while
+`pos < 256 GiB − 100 MiB`), the 256 GiB check, and `u32::try_from(offset)` AFTER the bytes were
+written and the position advanced.  Returns `(offset, total_size)`.  There is NO check against
+2^30, the width of the offset field of an `.idx` record (`Lsm.packLoc`). -/
+def placeAt (pos blteLen : Nat) : Except Err (Nat × Nat) :=
+  if blteLen ≥ 2 ^ 32 then .error .tooLarge
+  else if headerSize + blteLen ≥ 2 ^ 32 then .error .tooLarge
+  else if pos ≥ maxArchive - writeReserve then .error .rollover
+  else if pos + (headerSize + blteLen) > maxArchive then .error .tooLarge
+  else if pos ≥ 2 ^ 32 then .error .tooLarge
+  else .ok (pos, headerSize + blteLen)
+
+/-- does a failing `placeAt` leave the entry written and the position advanced?  (only the late
+`u32::try_from(offset)` does) -/
+def placeAtWrites (pos blteLen : Nat) : Bool :=
+  decide (blteLen < 2 ^ 32 ∧ headerSize + blteLen < 2 ^ 32 ∧ pos < maxArchive - writeReserve ∧
+    pos + (headerSize + blteLen) ≤ maxArchive)
 
 /-- a new `ArchiveManager` on the same directory + `open_all()`. -/
 def reopen (s : State) : State :=
